@@ -105,7 +105,9 @@ def gen_case(rng, idx, tier):
     allowed = [0, 1, 2] + rng.sample(used, len(used) // 2)
     project_cfg = DEFAULT_CFG + "magic-numbers:\n  allowed_numbers: %s\nnesting:\n  max_nesting_depth: %d\n" % (
         json.dumps(allowed), rng.choice([2, 3, 7, 9]))
-    cfgs = [None, "# stock configuration\n", "nesting:\n  max_nesting_depth: 2\nmagic-numbers:\n  allowed_numbers: [7]\n"]
+    cfgs = [None, "# stock configuration\n", "nesting:\n  max_nesting_depth: 2\nmagic-numbers:\n  allowed_numbers: [7]\n",
+            # a value the owning linter documents as invalid ends the run with exit 2 - sequentially and in parallel
+            "nesting:\n  max_nesting_depth: 0\n", "srp:\n  max_methods: -1\n"]
     cli_runs = [("nesting", rng.choice(cfgs)), ("magic-numbers", rng.choice(cfgs)), (rng.choice(CLI_CMDS), rng.choice(cfgs))]
     cli = {"runs": cli_runs, "target": rng.choice([".", ".", "pkg_a", ".", "FILES"]), "project_cfg": project_cfg, "repeat": repeat}
     return {"idx": idx, "files": files, "runs": runs, "cli": cli}
